@@ -98,20 +98,9 @@ theorem signal_in_body_marks_failed {cfg : Cfg} {done : Bool} {failed : Option N
     ((s.procs i).wroteFailed = some s.sh.epoch → s.sh.failed.isSome = true ∧ s.sh.done = false) ∧
     (s.procs i).touched = false := by
   have inv := inv_reach h
-  refine ⟨inv.sigBody1 i hi hs, fun hw => ?_, ?_⟩
-  · have := inv.sigBody2 i hi hs hw
-    exact ⟨this.1, this.2.1⟩
-  · -- a process signalled in the body is in the body frame, in `handle_error` or exiting: it can only have
-    -- touched the marker before, but then it was past the body already
-    cases ht : (s.procs i).touched with
-    | false => rfl
-    | true =>
-      exfalso
-      have hdone := (inv.touchedDone i ht).1
-      by_cases hw : (s.procs i).wroteFailed = some s.sh.epoch
-      · have := (inv.sigBody2 i hi hs hw).2.1; simp_all
-      · -- no write yet at this epoch: use the stable part proved below
-        exact sigBody_never_touched inv i hi hs ht
+  refine ⟨inv.sigBody1 i hi hs, fun hw => ?_, ((touchLocal_reach h i hi).2 hs).2.2⟩
+  have := inv.sigBody2 i hi hs hw
+  exact ⟨this.1, this.2.1⟩
 
 /-- **last sentence, on the repaired source**: a job process that ended on its own (exited, with
     whatever status, without ever receiving SIGTERM/SIGINT) leaves no process-id file behind: the pid
